@@ -21,6 +21,11 @@ pub fn choose(n: usize) -> Option<usize> {
     }
 }
 
+/// May a non-blocking lock attempt find the lock taken? Only while another controlled thread runs.
+pub fn contended() -> bool {
+    CONTROLLED.with(Cell::get) && controller::others_alive() && controller::choose(2) == 1
+}
+
 pub fn set_controlled(on: bool) {
     CONTROLLED.with(|c| c.set(on));
 }
@@ -29,5 +34,5 @@ pub mod controller {
     //! Stateless DFS over real threads: every controlled thread parks at each point; the
     //! controller waits until all live threads are parked or finished, then releases one
     //! according to the current choice stack. Filled in by `dfs.rs`.
-    pub use crate::shim::dfs::{at_point, choose};
+    pub use crate::shim::dfs::{at_point, choose, others_alive};
 }
